@@ -727,4 +727,69 @@ theorem close_default_remote_finals (env : Env) (a : Arb) (sets : Sets)
     NodupIdx.filter _ hwfc.inNodup
   rw [hn.count]
 
+/-! ### resolvers created at confirmation; the user-then-local path -/
+
+theorem close_resolvers (env : Env) (a : Arb) (cs : CommitSet) (res : Resolutions)
+    (height : Nat) (choice : AState → Bool) (isLocal : Bool)
+    (hpre : a.state = .default ∨ a.state = .broadcastCommit ∨ a.state = .commitmentBroadcasted)
+    (hb : res.breach = false) (hne : (res.isEmpty && cs.sets.isEmpty) = false) :
+    (handleClose env a
+      (if isLocal then .localForce cs res height else .remoteForce cs res height) choice).2.resolvers =
+    prepResolvers res (construct env cs.key cs.sets height
+      (if isLocal then .localClose else .remoteClose) (choice .contractClosed)) := by
+  cases isLocal
+  · simp only [Bool.false_eq_true, if_false, handleClose]
+    rcases hpre with hs | hs
+    · rw [advance_default_close env { a with resolutions := some res } height .remoteClose cs res
+        choice (Or.inl rfl) hs rfl hb]
+      simp [Out.append, ccOut, hne]
+    · rw [advance_broadcast_close env { a with resolutions := some res } height .remoteClose cs res
+        choice (Or.inl rfl) hs rfl hb]
+      simp [ccOut, hne]
+  · simp only [if_true, handleClose]
+    rcases hpre with hs | hs
+    · rw [advance_default_close env { a with resolutions := some res } height .localClose cs res
+        choice (Or.inr rfl) hs rfl hb]
+      simp [Out.append, ccOut, hne]
+    · rw [advance_broadcast_close env { a with resolutions := some res } height .localClose cs res
+        choice (Or.inr rfl) hs rfl hb]
+      simp [ccOut, hne]
+
+/-- user trigger from StateDefault with a working `ForceCloseChan`. -/
+theorem advance_default_user (env : Env) (a : Arb) (height : Nat) (choice : AState → Bool)
+    (hs : a.state = .default) (hf : a.fcErr = .none) :
+    (advance env a height .user none choice advanceFuel).2.fails =
+      failBatch (indexSet (actionsOf
+        (checkLocal env height .user a.active false (choice .default)) .failDust)) ∧
+    (advance env a height .user none choice advanceFuel).2.forceClose = 1 ∧
+    (advance env a height .user none choice advanceFuel).1 =
+      { a with state := .commitmentBroadcasted } := by
+  obtain ⟨st, act, r, f, ins⟩ := a
+  simp only at hs hf; subst hs hf
+  simp [advanceFuel, advance, stateStep, Out.append]
+
+theorem checkLocal_failDust (env : Env) (height : Nat) (trig : Trigger) (sets : Sets) (cc pl : Bool)
+    (ht : trig ≠ .chain) :
+    actionsOf (checkLocal env height trig sets cc pl) .failDust =
+      sets.loc.outgoing.filter (·.dust) ++
+      actionsOf (checkRemoteDangling env height sets cc pl) .failDust := by
+  unfold checkLocal
+  rw [checkCommit_nonchain _ _ _ _ ht]
+  simp only [actionsOf_append, actionsOf_map, classifyOut_beq_failDust, classifyIn_beq_failDust,
+    filter_const_false, List.append_nil]
+
+theorem checkLocal_failDangling (env : Env) (height : Nat) (trig : Trigger) (sets : Sets) (cc pl : Bool)
+    (ht : trig ≠ .chain) :
+    actionsOf (checkLocal env height trig sets cc pl) .failDangling =
+      actionsOf (checkRemoteDangling env height sets cc pl) .failDangling := by
+  unfold checkLocal
+  rw [checkCommit_nonchain _ _ _ _ ht]
+  simp only [actionsOf_append, actionsOf_map, classifyOut_beq_failDangling,
+    classifyIn_beq_failDangling, filter_const_false, List.nil_append]
+
+theorem dangling_index_notin_local (env : Env) (height : Nat) (sets : Sets) (cc pl : Bool) (a : Action)
+    (x : Htlc) (hx : x ∈ actionsOf (checkRemoteDangling env height sets cc pl) a) :
+    x.index ∉ sets.loc.outgoing.map (·.index) :=
+  checkRemoteDangling_index_notin env height sets cc pl _ (mem_actionsOf hx)
+
 end LndModel.C12
